@@ -59,7 +59,7 @@ class LPkt:
 
 
 # ------------------------------------------------------------------ TLS connection -> logical packets
-DEFAULT_TCP = dict(isn_c=1000, isn_s=5000, syn=True, acks=False, mode="rec", mss=1400, cuts=[[], []], dups=[], moves=[])
+DEFAULT_TCP = dict(isn_c=1000, isn_s=5000, syn=True, acks=False, mode="rec", mss=1400, cuts=[[], []], dups=[], moves=[], redups=[])
 
 
 def _forced_cuts(conn):
@@ -160,12 +160,13 @@ def tls_packets(ci, conn, ep, tcp):
     # or inside one handshake flight): implemented by swapping with following same-direction segments, never crossing a
     # forced cut of the other direction (causality)
     hs_end = _hs_end_offsets(conn)
+    nseg = len(segs)          # the original segments (coalescing retransmissions are appended behind them, after the moves)
     first_rec_end = len(conn.events[0][1]) if conn.events and not conn.events[0][0] else 0
     excluded = 0
     for i, d in t["moves"]:
         if not segs:
             break
-        i %= len(segs)
+        i %= nseg
         if not t.get("allow_first_record_moves") and not segs[i]["srv"] and segs[i]["off"] < first_rec_end:
             excluded += 1      # open finding F05r: reordering inside the client's first record (see known_findings.json)
             continue
@@ -184,6 +185,26 @@ def tls_packets(ci, conn, ep, tcp):
             it = seq_items.pop(k)
             seq_items.insert(m, it)
             k = m
+    # coalescing retransmissions: [i, n, j] -> the data of segment i and the next n segments of its direction is sent again as ONE segment
+    # (same sequence number as segment i, longer payload), captured j+1 positions after the last of them - only data already captured
+    for i, n, j in t.get("redups", []):
+        if not segs:
+            break
+        i %= nseg
+        srv = segs[i]["srv"]
+        run = [i]
+        k = i + 1
+        while len(run) <= n and k < nseg:
+            if segs[k]["srv"] == srv:
+                if segs[k]["off"] != segs[run[-1]]["off"] + len(segs[run[-1]]["data"]):
+                    break
+                run.append(k)
+            k += 1
+        if len(run) < 2:
+            continue
+        last_pos = max(p_ for p_, it in enumerate(seq_items) if it[0] == "seg" and it[1] in run)
+        segs.append({"srv": srv, "off": segs[i]["off"], "data": b"".join(segs[x]["data"] for x in run), "redup": True})
+        seq_items.insert(min(len(seq_items), last_pos + 1 + j), ("dup", len(segs) - 1))
     pk = []
     def isn(v, srv):
         """an ISN, or ["zero_at", k]: the value that puts the start of the k-th segment (mod n) of that direction at sequence number 0"""
@@ -436,13 +457,21 @@ def write_capture(b, workdir, pkts=None, container=None, keys=None, name="in"):
         # unrelated blocks
         for pos, btype, blen in c["extra"]:
             body = bytes((7 * i + btype) & 0xFF for i in range(blen))
-            if btype == 4:     # NRB: one end-of-records record + no options
-                body = struct.pack(c["endian"] + "HH", 0, 0)
+            if btype == 4:     # NRB: IPv4 name records up to about blen bytes, then the end-of-records record
+                e = c["endian"]
+                recs = b""
+                k = 0
+                while len(recs) + 24 <= blen:
+                    val = bytes([10, 0, (k >> 8) & 0xFF, k & 0xFF]) + b"host%05d.example" % (k % 100000) + b"\x00"
+                    recs += struct.pack(e + "HH", 1, len(val)) + val + b"\x00" * (-len(val) % 4)
+                    k += 1
+                body = recs + struct.pack(e + "HH", 0, 0)
             elif btype == 5:   # ISB: interface id + timestamp
                 body = struct.pack(c["endian"] + "III", 0, 0, 0)
             items.insert(pos % (len(items) + 1), ("raw", btype, body))
         path = os.path.join(workdir, name + ".pcapng")
-        netio.write_pcapng(path, items, endian=c["endian"], tsresol=c["tsresol"], tsoffset=c["tsoffset"], offset_first=bool(c.get("offset_first")))
+        netio.write_pcapng(path, items, endian=c["endian"], tsresol=c["tsresol"], tsoffset=c["tsoffset"], offset_first=bool(c.get("offset_first")),
+                           snaplen=c.get("snaplen", 0))
     else:
         path = os.path.join(workdir, name + ".pcap")
         netio.write_pcap(path, items, endian=c["endian"], nano=c["nano"])
